@@ -417,6 +417,10 @@ class _ScanExec(SymExec):
         super().__init__(repo, loop_iters=(1,))
         self.captured = []
 
+    def iter_index(self, st, node, n):
+        # an arbitrary iteration of each loop: symbolic counter
+        return Lin.atom(f"k@{node.lineno}") + n
+
     def call_default(self, st, n, fval, args, kwargs, func, depth):
         if isinstance(n.func, ast.Name) and isinstance(st.env.get(n.func.id), Sym) and st.env[n.func.id].name == "compare_func":
             idxs = []
